@@ -67,6 +67,17 @@ def sample_times(r, dt, nsteps_target):
     return sorted(ts), style
 
 
+def _scribble(container):
+    try:
+        if isinstance(container, list):
+            for i in range(len(container)):
+                container[i] = -4321.5
+        else:
+            container.value[...] = -4321.5
+    except Exception:
+        pass
+
+
 def expected_on_t_sample(T, taus):
     """contract: record at the first step whose time is at or after each requested time; one per step"""
     rec, pos = [], 0
@@ -160,8 +171,11 @@ def run_case(case):
             gen.rng_for(sd, "C09set", idx).shuffle(names)
             for nm in names:
                 setattr(sc, nm, kw[nm])
+            _scribble(kw["t_sample"])
             return sc
-        return RDScript(**kw)
+        sc = RDScript(**kw)
+        _scribble(kw["t_sample"])           # the script owns its requested times: the caller's container is the caller's
+        return sc
     try:
         script_ref = mk("on_iteration")
         script = mk(policy)
